@@ -29,14 +29,22 @@ def load_source(c, repo=REPO, override=None):
 
 
 def find_function(tree, qualname):
+    """`Class.attr` is the first definition (the getter of a property); `Class.attr.setter` the
+    definition decorated with `@attr.setter`."""
     parts = qualname.split('.')
+    want_setter = parts[-1] == 'setter' and len(parts) >= 2
+    if want_setter:
+        parts = parts[:-1]
     body = tree.body
     node = None
     for i, p in enumerate(parts):
         found = None
         for n in body:
             if isinstance(n, (ast.FunctionDef, ast.ClassDef)) and n.name == p:
-                # for properties with setters take the getter (first definition)
+                if want_setter and i == len(parts) - 1 and isinstance(n, ast.FunctionDef) \
+                        and not any(isinstance(d, ast.Attribute) and d.attr == 'setter'
+                                    for d in n.decorator_list):
+                    continue
                 found = n
                 break
         if found is None:
@@ -303,6 +311,11 @@ class Verifier:
             for label, text in c.ensures:
                 o = ob(f'ensures:{label}', text)
                 est = State(dict(env0))
+                # records are mutable: the postcondition sees this path's copy (post-state)
+                for k0, v0 in env0.items():
+                    v1 = pst.env.get(k0)
+                    if isinstance(v0, SObj) and isinstance(v1, SObj) and v1.cls == v0.cls:
+                        est.env[k0] = v1
                 est.env['result'] = oc[1]
                 est.env['final'] = pst.env      # post-state of locals (for frame clauses)
                 est.facts = list(pst.facts)
